@@ -18,6 +18,75 @@ var stages = map[string]bool{"newValidatorPerformances": true, "groupVotesByPair
 	"clearExchangeRates": true, "Tally": true, "SetPrice": true, "incrementMissCounters": true,
 	"incrementAbstainsByOmission": true, "rewardWinners": true, "clearVotesAndPrevotes": true, "refreshWhitelist": true}
 
+// stageByContent recognises a stage function that was RENAMED by what its own body does (the characteristic store /
+// keeper operation of the stage); "" when the body is none of them.  Only consulted for callees whose name is not a
+// stage name, so the names in the tree today keep their meaning.
+func stageByContent(d *ast.FuncDecl) string {
+	if d == nil || d.Body == nil {
+		return ""
+	}
+	has := map[string]bool{}
+	ast.Inspect(d.Body, func(n ast.Node) bool {
+		switch x := n.(type) {
+		case *ast.FuncLit:
+			return false
+		case *ast.CallExpr:
+			f := Nospace(x.Fun)
+			for _, suf := range []string{"ValidatorsPowerStoreIterator", ".MissCounters.Insert", "AllocateTokensToValidator", ".Votes.Iterate",
+				".MulInt64", ".ExchangeRates.Delete", ".Votes.Delete", ".WhitelistedPairs.Insert"} {
+				if strings.HasSuffix(f, suf) {
+					has[suf] = true
+				}
+			}
+			if f == "append" {
+				has["append"] = true
+			}
+		case *ast.AssignStmt:
+			if x.Tok == token.ADD_ASSIGN && len(x.Lhs) == 1 && strings.HasSuffix(Nospace(x.Lhs[0]), ".AbstainCount") {
+				has["abstain+="] = true
+			}
+		}
+		return true
+	})
+	switch {
+	case has["ValidatorsPowerStoreIterator"]:
+		return "newValidatorPerformances"
+	case has[".Votes.Iterate"] && has["append"]:
+		return "groupVotesByPair"
+	case has[".MulInt64"]:
+		return "removeInvalidVotes"
+	case has[".ExchangeRates.Delete"]:
+		return "clearExchangeRates"
+	case has[".MissCounters.Insert"]:
+		return "incrementMissCounters"
+	case has["abstain+="]:
+		return "incrementAbstainsByOmission"
+	case has["AllocateTokensToValidator"]:
+		return "rewardWinners"
+	case has[".Votes.Delete"]:
+		return "clearVotesAndPrevotes"
+	case has[".WhitelistedPairs.Insert"]:
+		return "refreshWhitelist"
+	}
+	return ""
+}
+
+// stageFn: the function that implements a stage — by its name, or (renamed) by content within the call closure of root.
+func stageFn(p *pkg, root *ast.FuncDecl, stage string, typ ...string) *ast.FuncDecl {
+	if fd := p.fn(stage, typ...); fd != nil {
+		return fd
+	}
+	if root == nil {
+		return nil
+	}
+	for _, d := range p.closure(root) {
+		if d != root && !stages[d.Name.Name] && stageByContent(d) == stage {
+			return d
+		}
+	}
+	return nil
+}
+
 // pipeline: the stage calls reached from fd in source order, helpers of the package inlined.
 func pipeline(p *pkg, fd *ast.FuncDecl) []string {
 	var seq []string
@@ -41,6 +110,10 @@ func pipeline(p *pkg, fd *ast.FuncDecl) []string {
 			d := p.resolve(ce)
 			if stages[name] && d != nil {
 				seq = append(seq, name)
+				return true
+			}
+			if st := stageByContent(d); st != "" && !stages[name] {
+				seq = append(seq, st) // a renamed stage
 				return true
 			}
 			if d != nil && depth < 5 && !seen[d] {
@@ -341,6 +414,64 @@ func callOrder(p *pkg, fd *ast.FuncDecl, names map[string]bool) []string {
 	return seq
 }
 
+// voterStrings: the distinct forms of the Voter field in every AggregateExchangeRateVote{…} /
+// AggregateExchangeRatePrevote{…} composite literal of the given packages: "canon" when it is <expr>.String()
+// (local single-assignment aliases inlined), otherwise "raw:<expr>" (e.g. a message field).
+func voterStrings(ps ...*pkg) []string {
+	seen := map[string]bool{}
+	for _, p := range ps {
+		for _, f := range p.files {
+			for _, dcl := range f.F.Decls {
+				fd, ok := dcl.(*ast.FuncDecl)
+				if !ok || fd.Body == nil {
+					continue
+				}
+				defs := simpleDefs(fd.Body)
+				ast.Inspect(fd.Body, func(n ast.Node) bool {
+					cl, ok := n.(*ast.CompositeLit)
+					if !ok || cl.Type == nil {
+						return true
+					}
+					tn := Nospace(cl.Type)
+					if i := strings.LastIndex(tn, "."); i >= 0 {
+						tn = tn[i+1:]
+					}
+					if tn != "AggregateExchangeRateVote" && tn != "AggregateExchangeRatePrevote" {
+						return true
+					}
+					for _, el := range cl.Elts {
+						kv, ok := el.(*ast.KeyValueExpr)
+						if !ok {
+							seen["raw:positional"] = true
+							continue
+						}
+						if k, ok := kv.Key.(*ast.Ident); !ok || k.Name != "Voter" {
+							continue
+						}
+						v := strip(kv.Value)
+						if id, ok := v.(*ast.Ident); ok {
+							if d, ok := defs[id.Name]; ok {
+								v = strip(d)
+							}
+						}
+						if _, name, args, ok := callSel(v); ok && name == "String" && len(args) == 0 {
+							seen["canon"] = true
+						} else {
+							seen["raw:"+Nospace(v)] = true
+						}
+					}
+					return true
+				})
+			}
+		}
+	}
+	var out []string
+	for k := range seen {
+		out = append(out, k)
+	}
+	return sortedCopy(out)
+}
+
 func main() {
 	repo := Repo()
 	Header(repo)
@@ -350,16 +481,19 @@ func main() {
 
 	var pipe []string
 	clearGuards := 99
-	if fd := kp.fn("UpdateExchangeRates", "Keeper"); fd != nil {
+	root := kp.fn("UpdateExchangeRates", "Keeper")
+	if fd := root; fd != nil {
 		pipe = pipeline(kp, fd)
-		clearGuards = guardsOf(kp, fd, "clearVotesAndPrevotes")
+		if c := stageFn(kp, root, "clearVotesAndPrevotes"); c != nil {
+			clearGuards = guardsOf(kp, fd, c.Name.Name)
+		}
 	}
 	round, fromThr := "RoundOther", false
-	if fd := kp.fn("removeInvalidVotes"); fd != nil {
+	if fd := stageFn(kp, root, "removeInvalidVotes"); fd != nil {
 		round, fromThr = thresholdRounding(kp, fd)
 	}
 	ppt, skips := false, false
-	if fd := kp.fn("groupVotesByPair"); fd != nil {
+	if fd := stageFn(kp, root, "groupVotesByPair"); fd != nil {
 		ppt, skips = groupFacts(kp, fd)
 	}
 	mf := medianFacts{cmp: "CmpOther"}
@@ -383,7 +517,7 @@ func main() {
 		ebOrder = callOrder(ap, fd, map[string]bool{"UpdateExchangeRates": true, "SlashAndResetMissCounters": true})
 	}
 	expiry, expiryText := "ExpiryOther", ""
-	if fd := kp.fn("clearExchangeRates"); fd != nil {
+	if fd := stageFn(kp, root, "clearExchangeRates"); fd != nil {
 		kp.inspectClosure(fd, func(o *ast.FuncDecl, n ast.Node) bool {
 			a, ok := n.(*ast.AssignStmt)
 			if !ok || a.Tok != token.DEFINE || len(a.Lhs) != 1 || len(a.Rhs) != 1 || expiryText != "" {
@@ -470,7 +604,8 @@ func main() {
 	fmt.Printf("  cc_validate_thr_upper := %s;\n", CoqBool(has("call(p.VoteThreshold.GT;call(math.LegacyOneDec;))")))
 	fmt.Printf("  cc_validate_min_voters := %s;\n", CoqBool(has("(<= p.MinVoters 0)")))
 	fmt.Printf("  cc_validate_band := %s;\n", CoqBool(has("(|| call(p.RewardBand.GT;call(math.LegacyOneDec;)) call(p.RewardBand.IsNegative;))")))
-	fmt.Printf("  cc_edit_validates := %s |}.\n", CoqBool(editValidates))
+	fmt.Printf("  cc_edit_validates := %s;\n", CoqBool(editValidates))
+	fmt.Printf("  cc_voter_strings := %s |}.\n", coqStrs(voterStrings(ap, kp, tp)))
 	fmt.Println("(* diagnostics (not used by the obligations) *)")
 	fmt.Printf("Definition expiry_normal_form : string := %s.\n", CoqString(expiryText))
 	fmt.Printf("Definition validate_conditions : list string := %s.\n", coqStrs(conds))
